@@ -176,4 +176,5 @@ func main() {
 	genBest(o, r, *maxLen, *nrand, *runs)
 	genGap(o, r, *ngap)
 	genHandlers(o, r, *nh)
+	genTemp(o)
 }
